@@ -30,12 +30,3 @@ var commonAssumptions = []string{
 	"only the structural necessary conditions named in 'explanation' are decided; the behavioural remainder of the property is NOT decided by this check",
 }
 
-func init() {
-	register(PropertyMeta{
-		ID:    "C11",
-		Level: "other",
-		Explanation: "parser.Walk is read as a table (case type -> visitor call, pushed child fields, guards). Decided: (handled) every dynamic type that can reach the worklist - roots of type Statement/Expr and every pushed field, interface-typed fields expanded to all module implementers - has a case, so the panicking default is dead; (complete) every node-bearing field of every case type is pushed exactly once (slices: in a loop over all indices; element types without a case: their node fields instead), two documented exceptions; (nil) optional fields (derived from explicit nil stores in the parser plus reviewed rows) are pushed only under a nil guard; (once) one visitor call per case with the case's node, all pushes gated on its result, one pop per iteration, root pushed once; (use) the compiler's visitor always returns true. Not decided: acyclicity/finite size of trees (assumed from the parser building fresh nodes), behaviour for trees built by hand.",
-		Assumptions: append([]string{"the parser returns finite trees without sharing", "optional-field table = explicit `x.F = nil` stores in parser productions + reviewed rows (ProjectColumn.X, RenderProperty.Value)"}, commonAssumptions...),
-		Rules:       []string{"C11/handled", "C11/complete", "C11/nil", "C11/once", "C11/use"},
-	}, ruleC11)
-}
